@@ -1,5 +1,6 @@
 import NmfuModel.Parse
 import NmfuModel.Explore
+import NmfuModel.Rt
 open Nmfu
 
 def splitBar (s : String) : List String := Id.run do
@@ -80,10 +81,102 @@ def cmdTree (args : List String) : String :=
     | .error e => s!"error parse {e}"
   | _ => "error bad-args"
 
+def splitOn (s : String) (sep : Char) : List String := Id.run do
+  let mut acc : Array String := #[]
+  let mut cur : String := ""
+  for c in s.toList do
+    if c = sep then
+      acc := acc.push cur
+      cur := ""
+    else cur := cur.push c
+  acc := acc.push cur
+  return acc.toList
+
+def hexVal (c : Char) : Nat :=
+  if '0' ≤ c && c ≤ '9' then c.toNat - '0'.toNat
+  else if 'a' ≤ c && c ≤ 'f' then c.toNat - 'a'.toNat + 10
+  else if 'A' ≤ c && c ≤ 'F' then c.toNat - 'A'.toNat + 10 else 0
+
+def unhex (s : String) : List Nat :=
+  let rec go : List Char → List Nat
+    | a :: b :: r => (hexVal a * 16 + hexVal b) :: go r
+    | _ => []
+  go s.toList
+
+def parseRtOpts (s : String) : RtOpts :=
+  let has (c : Char) := s.toList.contains c
+  { strictDone := has 's', dynamic := has 'd', onDemand := has 'o', deleteFrees := has 'f',
+    u8 := has 'u', unsafeIdx := has 'x', indirect := has 'i', zeroLen := has 'z' }
+
+def rtOp (c : RtCtx) (σ : CState) (op : String) : CState :=
+  match splitOn op ':' with
+  | ["start"] =>
+    let (σ', code) := c.start σ
+    { σ' with log := σ'.log.push s!"start {code} | {c.dump σ'}" }
+  | ["feed", h] =>
+    let chunk := unhex h
+    let (σ', code, pos) := c.feed σ chunk 0
+    let ps := if c.ro.indirect then toString pos else "-"
+    { σ' with log := σ'.log.push s!"feed {code} {ps} | {c.dump σ'}" }
+  | ["feedy", h] => Id.run do
+    let chunk := unhex h
+    let mut σ' := σ
+    let mut pos := 0
+    let mut n := 0
+    let mut go := true
+    while go do
+      let (σ2, code, pos2) := c.feed σ' chunk pos
+      σ' := { σ2 with log := σ2.log.push s!"feed {code} {pos2} | {c.dump σ2}" }
+      pos := pos2
+      n := n + 1
+      if !(code.startsWith "YIELD_") || n > 4 * chunk.length + 8 then go := false
+    return σ'
+  | ["end"] =>
+    let (σ', code) := c.endCall σ
+    { σ' with log := σ'.log.push s!"end {code} | {c.dump σ'}" }
+  | ["free"] =>
+    let σ' := c.free σ
+    { σ' with log := σ'.log.push "free" }
+  | ["force", n] => { σ with state := n.toInt! }
+  | ["seti", i, v] => { σ with scalars := σ.scalars.setIfInBounds i.toNat! v.toInt! }
+  | ["sets", i, h] =>
+    let bs := unhex h
+    let b := σ.str i.toNat!
+    let bytes := (List.range bs.length).foldl (fun a k => a.setIfInBounds k (some (bs.getD k 0))) b.bytes
+    let bytes := if (c.ty i.toNat!).nullTerm then bytes.setIfInBounds bs.length (some 0) else bytes
+    σ.setStr i.toNat! { b with bytes := bytes, counter := bs.length }
+  | ["dump"] => { σ with log := σ.log.push s!"dump | {c.dump σ}" }
+  | _ => { σ with log := σ.log.push s!"badop {op}" }
+
+def cmdRt (args : List String) : String :=
+  match args with
+  | [opts, m, ops] =>
+    match parseMachine m with
+    | .ok M =>
+      let c : RtCtx := { M := M, ro := parseRtOpts opts }
+      -- the driver fills the state struct with 0xAA before `start`
+      let pat : Int := 0xAAAAAAAAAAAAAAAA
+      let σ0 : CState := {
+        scalars := Array.ofFn (n := M.outs.size) fun i =>
+          match (M.outs.getD i default).ty with
+          | .bool => 170
+          | t => (t.cty c.ro.u8).wrap pat,
+        strs := Array.ofFn (n := M.outs.size) fun i =>
+          let t := (M.outs.getD i default).ty
+          { bytes := Array.replicate t.size (some 170), counter := 0, alloc := .inStruct } }
+      let σ := (splitOn ops ';').foldl (fun σ op => if op = "" then σ else rtOp c σ op) σ0
+      let out := " ## ".intercalate σ.log.toList
+      match σ.fault with
+      | some f => out ++ " ## fault " ++ f
+      | none => out
+    | .error e => s!"error parse {e}"
+  | _ => "error bad-args"
+
 def handle (line : String) : String :=
   match splitBar line with
   | "equiv" :: args => cmdEquiv args
   | "tree" :: args => cmdTree args
+  | "rt" :: args => cmdRt args
   | "ping" :: _ => "pong"
   | _ => "error unknown-command"
 
